@@ -20,7 +20,8 @@ contract('saml2_tophat.time_util:str_to_time', trusted=True, pure=True, params=[
          types={'timestr': 'Opt(Str)'}, returns="Union(Int, Inst('time:struct_time'))",
          ensures=['implies(not truthy(timestr), result == 0)',
                   "implies(truthy(timestr), typed(result, \"Inst('time:struct_time')\") and st_epoch(result) == epoch(timestr))"],
-         raises={'Exception': 'truthy(timestr) and not parsable(timestr)'},
+         raises={'ValueError': 'truthy(timestr) and not parsable(timestr)',
+                 'AttributeError': 'truthy(timestr) and not parsable(timestr)'},
          assumptions=['E-TIMEPARSE'],
          note='str_to_time is repository code; its string parsing is covered by the bounded differential of C04, '
               'the proofs are parametric in epoch/parsable')
